@@ -102,6 +102,29 @@ theorem exec_leaves_no_state_behind (fuel ti : Nat) (ctx : Env) (σ : ES) :
         simp only [modify, modifyGet, MonadStateOf.modifyGet, EStateM.modifyGet]
         exact restore_pattern _ σ.cycle σ.changedV σ.changedC _
 
+/-! ### pairs and defaults are evaluated in the order they are written (D67) -/
+
+/-- **The first failing pair decides**: of the pairs of a `with` / `include … with` (and, by the
+    same recursion in `evalDefaults`, the defaults of a macro) the one written first is evaluated
+    first; if it fails, that error — and no other — is the outcome, whatever the later pairs would
+    do; if it succeeds, the later pairs are evaluated in the state it left.  Which of two failing
+    expressions is reported is therefore a function of the template, not of the execution. -/
+theorem first_failing_pair_decides (fuel : Nat) (k : Bytes) (e : Expr) (rest : List (Bytes × Expr)) (σ σ' : ES) :
+    (∀ err, (eval T cfg g fuel e).run σ = .error err σ' →
+      (evalPairs T cfg g (fuel + 1) ((k, e) :: rest)).run σ = .error err σ') ∧
+    (∀ v, (eval T cfg g fuel e).run σ = .ok v σ' →
+      (evalPairs T cfg g (fuel + 1) ((k, e) :: rest)).run σ =
+        ((evalPairs T cfg g fuel rest) >>= fun vs => pure ((k, Val.boxed v.v v.safe) :: vs)).run σ') := by
+  constructor
+  · intro err h
+    rw [evalPairs]
+    simp only [EStateM.run, bind, EStateM.bind] at h ⊢
+    rw [h]
+  · intro v h
+    rw [evalPairs]
+    simp only [EStateM.run, bind, EStateM.bind] at h ⊢
+    rw [h]
+
 /-! ### one semantics, whatever the fuel
 
 The interpreter is written with a fuel argument (the recursion bound Lean needs); every theorem
